@@ -162,6 +162,45 @@ def family_program(rng):
     return prog
 
 
+def fixed_program():
+    """a program every run executes: string keys that have deprecated aliases, a contradiction between two values of one key,
+    simplify_extras of one marker and of a marker sharing a node with it"""
+    return [('parse', "os_name == 'posix'"), ('parse', "os_name == 'nt'"), ('and', 0, 1), ('parse', "sys_platform == 'linux' and 'x' in platform_version"),
+            ('parse', "platform_machine != 'arm64' or platform_python_implementation == 'CPython'"), ('or', 2, 3), ('and', 3, 4),
+            ('parse', "sys_platform == 'linux' and extra == 'cuda'"), ('simpx', 7, [S('cuda')]), ('parse', "os_name == 'nt' and extra == 'cuda'"), ('simpx', 9, [S('cuda')]),
+            ('parse', "extra == 'cuda' or extra == 'cpu'"), ('simpx', 11, [S('cpu')]), ('and', 8, 10), ('not', 12)]
+
+
+ALIASES = [('os_name', 'os.name'), ('sys_platform', 'sys.platform'), ('platform_machine', 'platform.machine'), ('platform_version', 'platform.version'),
+           ('platform_python_implementation', 'python_implementation')]
+
+
+def alias_program(prog):
+    """the same program with every string key written in its deprecated spelling (as a warm-up: the same nodes, reached through other keys first)"""
+    out = []
+    for st in prog:
+        if st[0] == 'parse':
+            t = st[1]
+            for a, b in ALIASES:
+                t = t.replace(a, b)
+            out.append(('parse', t))
+        else:
+            out.append(st)
+    return out
+
+
+def other_extras_program(prog):
+    """the same program with every simplify_extras called for other extras (as a warm-up: the same nodes restricted for another set first)"""
+    out = []
+    for st in prog:
+        if st[0] == 'simpx':
+            had = [unS(e) for e in st[2]]
+            out.append(('simpx', st[1], [S(e) for e in ['cpu', 'a', 'dev', 'x-y'] if e not in had]))
+        else:
+            out.append(st)
+    return out
+
+
 def warmups(rng, prog, kind):
     if kind == 'none':
         return []
@@ -201,7 +240,7 @@ def run(ctx):
     # ---- (1) cross-history, fresh processes
     n_prog = 12 if quick else 60
     for p in range(n_prog):
-        prog = gen_program(ctx.rng, ctx.rng.randint(12, 25)) if p % 3 else family_program(ctx.rng)
+        prog = fixed_program() if p == 0 else (gen_program(ctx.rng, ctx.rng.randint(12, 25)) if p % 3 else family_program(ctx.rng))
         base, rel0 = run_program(h, prog, [], 7)
         ctx.evaluations += 1
         ctx.nontrivial(('prog', tuple(str(s) for s in prog)))
@@ -211,9 +250,12 @@ def run(ctx):
         variants.append(('independent steps permuted', [], perm))
         variants.append(('independent steps in reverse order', [], list(reversed(range(len(prog))))))
         variants.append(('the same program with other version spellings first', 'respell', None))
+        variants.append(('the same program with deprecated key spellings first', 'alias', None))
+        variants.append(('the same program with simplify_extras for other extras first', 'extras', None))
         for name, warm, order in variants:
-            if warm == 'respell':
-                obs, rel = run_program(h, prog, [], 7, None, warm_prog=respell(prog))
+            if warm in ('respell', 'alias', 'extras'):
+                wp = {'respell': respell, 'alias': alias_program, 'extras': other_extras_program}[warm](prog)
+                obs, rel = run_program(h, prog, [], 7, None, warm_prog=wp)
             else:
                 obs, rel = run_program(h, prog, warm, 7, order)
             ctx.oracle_cases += 1
